@@ -405,7 +405,7 @@ class Impute(EnvironmentFilter):
                 return median(values)
             if self._stat == "mode":
                 return mode(values)
-        except:
+        except Exception: #(not a bare except: a Ctrl-C must stop the read, not turn into "no value to impute")
             return None
 
 class Sparsify(EnvironmentFilter):
@@ -815,7 +815,7 @@ class Where(EnvironmentFilter):
         try:
             context = firstn[0].get('context')
             return try_else(lambda: len(context), 1) if context or context == 0 else 0
-        except:
+        except Exception:
             return 0
 
 class Riffle(EnvironmentFilter):
@@ -1282,7 +1282,7 @@ class Batch(EnvironmentFilter):
                     values = list(map(itemgetter(key),batch))
                     try:
                         new[key] = batch_data_type(values)
-                    except:
+                    except Exception:
                         new[key] = Batch.List(values)
 
                 yield new
@@ -1320,7 +1320,7 @@ class Unbatch(EnvironmentFilter):
                 for k in interaction:
                     try:
                         new[k] = interaction[k][i]
-                    except:
+                    except Exception: #(not a bare except: a Ctrl-C must stop the read, not hand on the whole batch as one value)
                         new[k] = interaction[k]
                 yield new
 
